@@ -134,13 +134,16 @@ class UnionMatcher(AdditiveBiMatcher):
         # If neither sub-matcher on its own has a high enough max quality to
         # contribute, convert to an intersection matcher
         if minquality and a_active and b_active:
+            # A hit has to score *more* than minquality to be kept, so a
+            # sub-matcher whose best score only equals it cannot contribute
+            # on its own either
             a_max = a.max_quality()
             b_max = b.max_quality()
-            if a_max < minquality and b_max < minquality:
+            if a_max <= minquality and b_max <= minquality:
                 return IntersectionMatcher(a, b).replace(minquality)
-            elif a_max < minquality:
+            elif a_max <= minquality:
                 return AndMaybeMatcher(b, a)
-            elif b_max < minquality:
+            elif b_max <= minquality:
                 return AndMaybeMatcher(a, b)
 
         # If one or both of the sub-matchers are inactive, convert
